@@ -1,9 +1,62 @@
 (* Run functions of the properties whose case streams include registry
    (stage B2) cases besides their own. *)
-From DG Require Import Base.Util Base.Sexp Model.Jsr Model.RunJsr Model.Decl Model.RunDecl Model.RunC01 Model.RunC05 Model.RunC07 Model.RunC06 Model.RunC13.
+From DG Require Import Base.Util Base.Sexp Model.Graph Model.Builder Model.Jsr Model.RunJsr Model.Decl Model.RunDecl Model.RunC01 Model.RunC05 Model.RunC07 Model.RunC06 Model.RunC13.
+
+(* ---------- C01, stage B1: "nothing unreachable is present", judged on the graph the model computes (which
+   must equal the real one) for worlds whose answers report the requested specifier as the final one.
+   Edges: recorded redirects, and the recorded dependencies and types dependency of module entries.
+   [relaxed] names the one known way an entry gets orphaned there (F-C01c): an error entry filed by an
+   asset request (a source-phase import of something that is not WebAssembly, an attribute type the options
+   do not allow) REPLACES whatever entry the target had - also a module entry whose dependencies were
+   already followed; relaxed, such an error entry still counts the dependencies of the world's module. *)
+Definition b1_dep_targets (d : dep) : list spec := res_targets (d_code d) ++ res_targets (d_type d).
+Definition b1_edges (W : world) (g : bgraph) (relaxed : bool) (s : spec) : list spec :=
+  (match lookup s (bg_redirects g) with Some t => [t] | None => [] end) ++
+  match lookup s (bg_slots g) with
+  | Some (BMod m) =>
+      flat_map b1_dep_targets (m_deps m) ++
+      match m_types_dep m with Some td => res_targets (td_res td) | None => [] end
+  | Some (BErr (BSourcePhase _ _)) | Some (BErr (BUnsupportedAttr _ _ _)) =>
+      if relaxed then match resp_of W s with WModule _ wm => wmod_targets wm | _ => [] end else []
+  | _ => []
+  end.
+Definition b1_starts (roots : list spec) (imps : list (spec * list dep)) : list spec :=
+  roots ++ flat_map (fun p => flat_map (fun d => res_targets (d_type d)) (snd p)) imps.
+Definition b1_reach_fuel (W : world) (g : bgraph) (starts : list spec) : nat :=
+  (16 + length starts + 4 * (length (bg_slots g) + length (bg_redirects g)) +
+   fold_left (fun n p => n + match snd p with
+                             | BMod m => 2 * length (m_deps m) + 1
+                             | BErr _ => match resp_of W (fst p) with WModule _ wm => length (wmod_targets wm) | _ => 0 end
+                             | _ => 0 end) (bg_slots g) 0)%nat.
+Definition b1_orphan_free (W : world) (g : bgraph) (starts : list spec) (relaxed : bool) : bool :=
+  let r := reach (b1_reach_fuel W g starts) (b1_edges W g relaxed) starts [] in
+  forallb (fun p => mem (fst p) r) (bg_slots g).
+Definition noalias_wresp (p : spec * wresp) : bool :=
+  match snd p with WExternal f => N.eqb f (fst p) | WModule f _ => N.eqb f (fst p) | _ => true end.
+Definition noalias_world (W : world) : bool := forallb noalias_wresp (w_resp W) && forallb noalias_wresp (w_resp_reload W).
+Definition c01_b1_judgement (W : world) (g : bgraph) (roots : list spec) (imps : list (spec * list dep)) : list sexp :=
+  let starts := b1_starts roots imps in
+  if negb (noalias_world W) then [judge true]
+  else if b1_orphan_free W g starts false then [judge true]
+  else if b1_orphan_free W g starts true then [judge false; L [A CLASSTAG; A 103]]
+  else [judge false].
+
+Definition run_c01_judged (input : sexp) : sexp :=
+  match input with
+  | L [w; o; roots; imps] =>
+      match dec_world w, dec_bopts o, as_atoms roots, dec_imports imps with
+      | Some W, Some o', Some roots', Some imps' =>
+          match build W o' (empty_bgraph (bo_kind o')) roots' imps' with
+          | Some g => L (enc_bgraph g :: c01_b1_judgement W g roots' imps')
+          | None => L [A 424242]
+          end
+      | _, _, _, _ => decode_error
+      end
+  | _ => decode_error
+  end.
 
 (* C01 also has declaration-layer cases *)
-Definition run_c01j : sexp -> sexp := fun s => if is_decl_case s then run_decl_any s else with_jsr_c01 run_c01 s.
+Definition run_c01j : sexp -> sexp := fun s => if is_decl_case s then run_decl_any s else with_jsr_c01 run_c01_judged s.
 Definition run_c03 : sexp -> sexp := with_jsr run_c01.
 Definition run_c04 : sexp -> sexp := with_jsr run_c01.
 Definition run_c05j : sexp -> sexp := with_jsr run_c05.
